@@ -92,7 +92,21 @@ def branch_of(spec) -> str:
     return "cgmy/1<y<2"
 
 
+_START = {"hem": {"sigma": 0.2, "p": 0.4, "eta1": 10.0, "eta2": 8.0, "intensity": 1.0},
+          "merton": {"sigma": 0.2, "mu_j": 0.05, "sigma_j": 0.1, "intensity": 1.0},
+          "vg": {"sigma": 0.2, "nu": 0.3, "theta": -0.1},
+          "cgmy": {"c": 1.0, "g": 5.0, "m": 5.0, "y": 0.5}}
+
+
 def build_params(spec):
+    """spec["route"] == "updated": the parameter object is built with other (fixed) values, every parameter is then
+    assigned and initialisation() called - the library's own update protocol (what its calibration does)."""
+    if spec.get("route") == "updated" and spec["family"] in _START:
+        params = build_params({"family": spec["family"], "params": dict(_START[spec["family"]])})
+        for k in sorted(spec["params"]):
+            setattr(params, k, spec["params"][k])
+        params.initialisation()
+        return params
     fam, p = spec["family"], spec["params"]
     if fam == "hem":
         from rpylib.model.levymodel.mixed.hem import HEMParameters
